@@ -6,8 +6,10 @@ import TracklibVerif.Drv.Util
 
   feats    features separated by `|`, vertices by `;`, coordinates by `,`          (`0,0;4,3|1,5/2;2,5/2`)
   res      `none` (default resolution) or `rx,ry`
-  margin   scalar, or `tc:1` / `tc:0`: the index is created by `TrackCollection.createSpatialIndex(res, verbose=True/False)`
-  late     `_` or `num@x,y;x,y|…`: `addFeature(track, num)` calls made after construction
+  margin   scalar, or `tc:1` / `tc:0`: the index is created by `TrackCollection.createSpatialIndex(res, verbose=True/False)`,
+           or `dflt`: the call (`SpatialIndex(...)` / `Network.createSpatialIndex(...)`) leaves the margin out
+  late     `_` or `num@x,y;x,y|…`: `addFeature(track, num)` calls made after construction; or `+@x,y;x,y|…` (every
+           item with `+`): `Network.addEdge` calls on the indexed network, which number the edges themselves
   queries  separated by `|`, fields by `;`:
      info | grid | getcell;x;y | inter;8 scalars | cross;ax;ay;bx;by (fractional cell indices)
      gcross;x1;y1;x2;y2 (ground coordinates: __cellsCrossSegment(__getCell(a), __getCell(b)), `none`, or `err:<kind>`)
@@ -121,18 +123,19 @@ def lateAdds (fl : α → Int) : Index α → List (Nat × List (α × α)) → 
 def run (num? : String → Option α) (shw : α → String) (fl : α → Int) (args : List String) : String :=
   match args with
   | [feats, res, margin, late, queries] =>
-    let parsed : Option (List (List (α × α)) × Option (α × α) × (α ⊕ Bool) × List (Nat × List (α × α))) := do
+    let parsed : Option (List (List (α × α)) × Option (α × α) × (Option α ⊕ Bool) × List (Option Nat × List (α × α))) := do
       let fs ← (splitTok feats '|').mapM (track? num?)
       let r ← if res == "none" then some none else
         match (splitTok res ',').mapM num? with
         | some [rx, ry] => some (some (rx, ry))
         | _ => none
       let m ← if margin == "tc:1" then some (Sum.inr true) else if margin == "tc:0" then some (Sum.inr false)
-        else (num? margin).map Sum.inl
+        else if margin == "dflt" then some (Sum.inl none)
+        else (num? margin).map (fun v => Sum.inl (some v))
       let lt ← (splitTok late '|').mapM (fun s =>
         match s.splitOn "@" with
         | [n, t] => do
-          let n ← n.toNat?
+          let n ← if n == "+" then some none else n.toNat?.map some
           let t ← track? num? t
           pure (n, t)
         | _ => none)
@@ -141,12 +144,19 @@ def run (num? : String → Option α) (shw : α → String) (fl : α → Int) (a
     | none => "bad-request"
     | some (fs, r, m, lt) =>
       let built := match m with
-        | .inl mv => build fl fs r mv
+        | .inl mv => createIndexArgs fl fs r mv
         | .inr verbose => createIndexTC fl fs r verbose
-      match built with
-      | .error e => showErr e
-      | .ok ix0 =>
-        match lateAdds fl ix0 lt with
+      -- later additions: all numbered by the caller (addFeature), or all numbered by the network (Network.addEdge)
+      let numbered := lt.filterMap (fun (nt : Option Nat × List (α × α)) => nt.1.map (fun n => (n, nt.2)))
+      let adds : Option (Index α → Res (Index α)) :=
+        if numbered.length == lt.length then some (fun ix0 => lateAdds fl ix0 numbered)
+        else if numbered.isEmpty then some (fun ix0 => networkAddEdges fl ix0 fs.length (lt.map (·.2)))
+        else none
+      match adds, built with
+      | none, _ => "bad-request"
+      | _, .error e => showErr e
+      | some add, .ok ix0 =>
+        match add ix0 with
         | .error e => "late:" ++ showErr e
         | .ok ix =>
           match (splitTok queries '|').mapM (query num? shw fl ix) with
